@@ -313,5 +313,5 @@ def run(ctx):
                  [f"src:{case['src']}", f"feature:{res['feat']}",
                   f"ez:{min(res['ez'], 2)}"])
 
-    ctx.hyp("c13", S.tapes(1200).map(gen), check, ctx.scale(12000, 300000),
+    ctx.hyp("c13", S.mapped(1200, gen), check, ctx.scale(12000, 300000),
             shrinker=shrink)
